@@ -612,7 +612,16 @@ where
         let mut buf = ReadBuf::new(msg.as_mut());
         self.sock
             .try_recv_buf_from(&mut buf)
-            .map(|(bytes_read, addr)| (msg, addr, bytes_read))
+            .map(|(bytes_read, addr)| {
+                // Hand out a buffer that holds the datagram and nothing else.
+                // The receive buffer is longer than most datagrams; treating
+                // the unused rest as part of the message makes a datagram that
+                // is too short for a DNS header look like a request.
+                let mut exact = self.buf.create_sized(bytes_read);
+                exact.as_mut()[..bytes_read]
+                    .copy_from_slice(&msg.as_ref()[..bytes_read]);
+                (exact, addr, bytes_read)
+            })
     }
 }
 
